@@ -251,6 +251,7 @@ func driverMain(args []string) {
 		return a.Run < b.Run
 	})
 	violations := 0
+	unrepro := 0
 	knownHits := 0
 	doneCheck := map[string]bool{}
 	for _, f := range failures {
@@ -270,6 +271,30 @@ func driverMain(args []string) {
 			extra = append(extra, "-nsites", n)
 		}
 		rl := filepath.Join(*scratch, "replay.racelog")
+		// does the scenario alone reproduce in a fresh process?  If not, the
+		// defect leaks state between calls: prepend the worker's recorded history.
+		code, rout := runReplay(bin, raw, rl, extra)
+		if code != 1 {
+			for _, depth := range []int{8, 64, 1 << 30} {
+				pre, err := buildPrelude(bin, f, depth, *workers, extra)
+				if err != nil {
+					die("rebuilding history: %v", err)
+				}
+				f.Prelude = pre
+				if err := writeScenario(raw, f); err != nil {
+					die("%v", err)
+				}
+				code, rout = runReplay(bin, raw, rl, extra)
+				if code == 1 || len(pre) == 0 {
+					break
+				}
+			}
+		}
+		if code != 1 {
+			unrepro++
+			fmt.Printf("NOTE: a %s/%s failure seen by a worker (seed %d run %d) does not reproduce in a fresh process, even with the worker's full history (exit %d): %s\n", *prop, f.Check, f.Seed, f.Run, code, trunc(strings.ReplaceAll(rout, "\n", " | "), 600))
+			continue
+		}
 		margs := append([]string{"minimise", "-in", raw, "-out", final, "-racelog", rl}, extra...)
 		mc := exec.Command(bin, margs...)
 		mc.Env = workerEnv()
@@ -277,13 +302,13 @@ func driverMain(args []string) {
 			die("minimiser failed for %s: %v: %s", f.Check, err, trunc(string(out), 2000))
 		}
 		// fresh-process replay of the minimised scenario must fail identically
-		code, rout := runReplay(bin, final, rl, extra)
+		code, rout = runReplay(bin, final, rl, extra)
 		if code != 1 {
 			// fall back to the unminimised scenario
 			writeScenario(final, f)
 			code, rout = runReplay(bin, final, rl, extra)
 			if code != 1 {
-				die("harness defect: violation %s/%s does not reproduce in a fresh process (exit %d): %s", *prop, f.Check, code, trunc(rout, 1500))
+				die("harness defect: violation %s/%s reproduced once but not twice in fresh processes (exit %d): %s", *prop, f.Check, code, trunc(rout, 1500))
 			}
 		}
 		min, err := readScenario(final)
@@ -346,7 +371,7 @@ func driverMain(args []string) {
 	}
 	if *prop == "C04" {
 		cov["max_steps_over_budget"] = total.MaxStepRatio
-		cov["step_budget"] = "B(n)=4096*(n+64)^2 yield steps per stage for an n-byte document"
+		cov["step_budget"] = "B(n)=1024*(n+64)^2 yield steps per stage for an n-byte document"
 	}
 	if *prop == "C19" {
 		cov["interleavings"] = map[string]int{"distinct_schedule_digests": len(total.SchedDigests), "distinct_preemption_triples": len(total.Triples)}
@@ -371,6 +396,40 @@ func driverMain(args []string) {
 	if violations > 0 {
 		os.Exit(1)
 	}
+	if unrepro > 0 && knownHits == 0 {
+		die("harness defect: %d failure class(es) seen by workers did not reproduce in a fresh process and none did", unrepro)
+	}
+}
+
+// buildPrelude regenerates the scenarios the failing worker executed before
+// the failing one (at most depth run indices back).
+func buildPrelude(bin string, f *Scenario, depth, workers int, extra []string) ([]*Scenario, error) {
+	back := f.Run / workers
+	if back > depth {
+		back = depth
+	}
+	from := f.Run - back*workers
+	a := append([]string{"gen", "-prop", f.Property, "-phase", f.Phase, "-seed", fmt.Sprint(f.Seed), "-from", fmt.Sprint(from),
+		"-to", fmt.Sprint(f.Run), "-stride", fmt.Sprint(workers), "-variant", f.Variant}, extra...)
+	cmd := exec.Command(bin, a...)
+	cmd.Env = workerEnv()
+	out, err := cmd.Output()
+	if err != nil {
+		return nil, err
+	}
+	var pre []*Scenario
+	sc := bufio.NewScanner(strings.NewReader(string(out)))
+	sc.Buffer(make([]byte, 1<<20), 1<<28)
+	for sc.Scan() {
+		var s Scenario
+		if err := json.Unmarshal(sc.Bytes(), &s); err != nil {
+			return nil, err
+		}
+		if s.Run < f.Run || (s.Run == f.Run && s.Sub < f.Sub) {
+			pre = append(pre, &s)
+		}
+	}
+	return pre, sc.Err()
 }
 
 func round1(x float64) float64 { return float64(int(x*10+0.5)) / 10 }
